@@ -592,25 +592,49 @@ func (e *Exec) doWriteTo(c *Cmd) string {
 	}
 	sb, ok := sg.(*zap.SegmentBase)
 	if !ok {
-		return "scripterror:notbase"
+		// a segment opened from a file streams itself through the promoted method
+		if zs, isSeg := sg.(*zap.Segment); isSeg {
+			sb = &zs.SegmentBase
+		} else {
+			return "scripterror:notbase"
+		}
+	}
+	if c.str("nilw", "0") == "1" {
+		// no writer at all: refused with an error, and nothing else happens
+		var n int64
+		if zs, isSeg := sg.(*zap.Segment); isSeg {
+			n, err = zs.WriteTo(nil)
+		} else {
+			n, err = sb.WriteTo(nil)
+		}
+		return fmt.Sprintf("%s n=%d", errKind(err), n)
 	}
 	fw := &failWriter{limit: c.num("fail", -1), once: c.str("once", "0") == "1"}
 	var n int64
 	if bs := c.num("bufio", 0); bs > 0 {
 		// the caller's own buffered writer (of any size), flushed by the caller afterwards
 		bw := bufio.NewWriterSize(fw, bs)
-		n, err = sb.WriteTo(bw)
+		n, err = segWriteTo(sg, sb, bw)
 		if err == nil {
 			err = bw.Flush()
 		}
 	} else {
-		n, err = sb.WriteTo(fw)
+		n, err = segWriteTo(sg, sb, fw)
 	}
 	if err != nil {
 		return fmt.Sprintf("%s fail=%d full=%d", errKind(err), fw.limit, c.num("full", -1))
 	}
 	e.bufs[c.Pos[1]] = append([]byte(nil), fw.buf.Bytes()...)
 	return fmt.Sprintf("ok n=%d len=%d fail=%d full=%d", n, fw.buf.Len(), fw.limit, c.num("full", -1))
+}
+
+// segWriteTo calls WriteTo on the segment object itself (for an opened segment: the method promoted
+// from its embedded base, or an override of it)
+func segWriteTo(sg segment.Segment, sb *zap.SegmentBase, w io.Writer) (int64, error) {
+	if zs, ok := sg.(*zap.Segment); ok {
+		return zs.WriteTo(w)
+	}
+	return sb.WriteTo(w)
 }
 
 // doFooter prints the raw footer fields of a file plus the CRC-32 the harness
@@ -954,6 +978,30 @@ func (e *Exec) doQuery(c *Cmd, sl *slots) string {
 			return "nil"
 		}
 		return hx(id)
+	case "docids":
+		// q docids <seg> n=<count> visit=<doc>: DocID of documents 0..n-1, every answer KEPT; then one
+		// more DocID and a stored-field visit of <doc>; only then are the kept answers looked at
+		n := c.num("n", 0)
+		kept := make([][]byte, n)
+		for d := 0; d < n; d++ {
+			id, err := sg.DocID(uint64(d))
+			if err != nil {
+				return errKind(err)
+			}
+			kept[d] = id
+		}
+		v := uint64(c.num("visit", 0))
+		sg.DocID(v)
+		sg.VisitStoredFields(v, func(string, byte, []byte, []uint64) bool { return true })
+		parts := make([]string, n)
+		for d := range kept {
+			if kept[d] == nil {
+				parts[d] = "nil"
+			} else {
+				parts[d] = hx(kept[d])
+			}
+		}
+		return strList(parts)
 	case "docnums":
 		ids, err := unhxList(c.str("ids", "-"))
 		if err != nil {
@@ -1404,7 +1452,20 @@ func (e *Exec) qThesTerms(c *Cmd, sg segment.Segment) string {
 	if err != nil {
 		return errKind(err)
 	}
-	itr := th.AutomatonIterator(nil, nil, nil)
+	lo, err1 := boundOf(c.str("lo", "*"))
+	hi, err2 := boundOf(c.str("hi", "*"))
+	if err1 != nil || err2 != nil {
+		return "scripterror:range"
+	}
+	var aut segment.Automaton
+	if c.str("aut", "all") != "all" {
+		a, err := mkAutomaton(c.str("aut", "all"))
+		if err != nil {
+			return "scripterror:aut"
+		}
+		aut = a
+	}
+	itr := th.AutomatonIterator(aut, lo, hi)
 	var out [][]byte
 	for {
 		en, err := itr.Next()
